@@ -53,6 +53,18 @@ def bicycleNumerator (r : Rates) (L : Nat) (p : Product) : Rat :=
   let npvgrt := r.gtr / (1 - r.gtr) * (npvcap + npvoandm + npvfc + npvit - npvitc)
   npvcap + npvoandm + npvfc + npvit + npvgrt - npvitc
 
+/-- weights of the BICYCLE model: inflation × discount, years 1..L -/
+def wB (r : Rates) (L : Nat) : List Rat := zipMul (inflB r.rinfl L) (discB (iave r) L)
+
+/-- capital coefficient κ of the BICYCLE numerator after the annuity identity (`CRF · Σ disc = 1`) -/
+def kappa (r : Rates) (L : Nat) : Rat :=
+  (1 + r.ic) + (1 + r.ic) * r.ptr * sumL (wB r L)
+    + r.ctr / (1 - r.ctr) * ((1 + r.ic) - sumL (discB (iave r) L) / (L : Rat))
+    - (1 + r.ic) * r.ritc / (1 - r.ctr)
+
+/-- in-range rates of finding F15: investment tax credit 76.5 %, income tax 42 %, low interest -/
+def f15Rates : Rates := ⟨0, 0, 7/100, 1/2, 1/50, 1/25, 42/100, 0, 765/1000, 0, 2/100⟩
+
 def levelizedNum (e : Econ) (r : Rates) (L : Nat) (p : Product) : Rat :=
   match e with
   | .fcr => r.fcr * (1 + r.ic) * p.ccap + p.coam + p.otherAvg
